@@ -1,58 +1,10 @@
 import OpcuaVerif.Common
 import OpcuaVerif.Model.C15
-import OpcuaVerif.Drv.C12
+import OpcuaVerif.Drv.SrvConn
 
+/-! C15 is decided on the shared model of one server connection (`Model/SrvConn.lean`). -/
 namespace OpcuaVerif.C15
-open OpcuaVerif.C12
 
-def showOut : Out → String
-  | .ack => "ok ack"
-  | .opnResponse ch tk r => s!"ok opn chan={ch} token={tk} req={r}"
-  | .service .getEndpoints r => s!"ok service GetEndpointsResponse req={r}"
-  | .service .createSession r => s!"ok service CreateSessionResponse req={r}"
-  | .closeErr e => s!"err {e}"
-  | .ignored => "err closed"
-
-def ci? (s : String) : Option CI :=
-  match parseCI? s with
-  | some (some c) => some c
-  | _ => none
-
-def parseFrame? : List String → Option Frame
-  | ["hel", "valid"] => some (.hel .valid)
-  | ["hel", "badurl"] => some (.hel .badUrl)
-  | ["hel", "smallbuf"] => some (.hel .smallBuffers)
-  | ["hel", "proto1"] => some (.hel .protocol1)
-  | ["ack"] => some .ack
-  | ["opn", "issue", c] => (ci? c).map (.opn false)
-  | ["opn", "renew", c] => (ci? c).map (.opn true)
-  | ["msg", "ge", c] => (ci? c).map (.msg .getEndpoints)
-  | ["msg", "cs", c] => (ci? c).map (.msg .createSession)
-  | ["clo", c] => (ci? c).map .clo
-  | _ => none
-
-/-- what a client sees over the socket: a response frame, or the connection going away -/
-def showSock : Out → String
-  | .ack => "ack"
-  | .opnResponse ch tk r => s!"opn_chan={ch}_token={tk}_req={r}"
-  | .service .getEndpoints r => s!"service_GetEndpointsResponse_req={r}"
-  | .service .createSession r => s!"service_CreateSessionResponse_req={r}"
-  | .closeErr _ => "eof"
-  | .ignored => "eof"
-
-def dstep (c : Conn) (toks : List String) : Conn × String :=
-  match toks with
-  | ["reset"] => (Conn.init, "ok")
-  | ["sock", specs] =>
-    match (specs.splitOn ",").mapM (fun sp => parseFrame? (sp.splitOn ".")) with
-    | some fs => (c, "ok [" ++ ",".intercalate ((run Conn.init fs).map showSock) ++ "]")
-    | none => (c, "bad-op")
-  | _ =>
-    match parseFrame? toks with
-    | some f => match step c f with
-      | (c', o) => (c', showOut o)
-    | none => (c, "bad-op")
-
-def driver : Driver := { σ := Conn, init := Conn.init, step := dstep }
+def driver : Driver := { σ := SrvConn.Conn, init := SrvConn.conn0, step := SrvConn.dstep }
 
 end OpcuaVerif.C15
